@@ -77,11 +77,18 @@ HZero   == { <<1,0,0,0>> }
 HCoarse == IF Thorough THEN { q \in QLat(2) : Primitive(q) /\ ~(q[2] = 0 /\ q[3] = 0 /\ q[4] = 0 /\ q[1] < 0) }
            ELSE { q \in QLat(1) : ~(q[2] = 0 /\ q[3] = 0 /\ q[4] = 0 /\ q[1] < 0) }
            \cup { <<2,1,0,-1>>, <<-2,0,1,1>>, <<1,-2,2,0>>, <<-1,2,0,2>>, <<0,1,2,-2>> }
-HAll    == HCoarse \cup HSmall \cup HNearPi \cup HZero
+(* Euler B321 targets close to (but outside) the 1e-3 rad gimbal band, with yaw and roll: pitch
+   2e-3 .. 2e-2 rad from +-pi/2 -- inside the domain of C02/C03, where the band logic must NOT fire *)
+NearPoleY == { <<501,0,500,0>>, <<501,0,-500,0>>, <<101,0,100,0>>, <<51,0,-50,0>> }
+HNearPole == { QMul(QMul(z, y), x) : z \in {<<2,0,0,1>>, <<1,0,0,-1>>}, y \in NearPoleY, x \in {<<3,1,0,0>>, <<1,-1,0,0>>} }
+(* Euler inputs inside the band / exactly at a pole (C03 only: exp(log X) = X to band tolerance) *)
+HBand     == { <<1,0,1,0>>, <<1,0,-1,0>>, <<1,1,1,-1>>, <<1,-1,-1,-1>>, <<-1,1,-1,1>>, <<1,1,-1,1>> }
+             \cup { QMul(QMul(<<2,0,0,1>>, y), <<3,1,0,0>>) : y \in {<<2001,0,2000,0>>, <<2001,0,-2000,0>>} }
+HAll    == HCoarse \cup HSmall \cup HNearPi \cup HZero \cup HNearPole
 Rhos    == { <<1,0,0>>, <<0,-2,1>>, <<3,1,-1>> }
 Ys      == IF Thorough THEN { <<0,0,0>>, <<1,0,0>>, <<0,-2,1>>, <<1,1,3>> } ELSE { <<0,0,0>>, <<0,-2,1>>, <<1,1,3>> }
 Alphas  == IF Thorough THEN { 0, 1, -2 } ELSE { 1, -2 }
-HCell(h) == IF nOf(h) = 0 THEN "zero" ELSE IF h \in HSmall THEN "small" ELSE IF h \in HNearPi THEN "nearpi"
+HCell(h) == IF nOf(h) = 0 THEN "zero" ELSE IF h \in HNearPole THEN "nearpole" ELSE IF h \in HSmall THEN "small" ELSE IF h \in HNearPi THEN "nearpi"
             ELSE IF h[1] = 0 THEN "pi" ELSE IF h[1] < 0 THEN "beyondpi" ELSE "regular"
 RepOK(rep, q) == (rep = "mrp" => MrpOk(q)) /\ (rep = "euler" => ~AtGimbalPole(q))
 
@@ -103,10 +110,10 @@ NextE == UNCHANGED dummy /\
         \/ \E rep \in Reps3 : RepOK(rep, h) /\ RepOK(rep, QConj(h)) /\      \* exp(-x) is compared too
               tv' = [op |-> "exp_so3", rep |-> rep, h |-> h, cell |-> cell, exp |-> RM(QMat(h), QNorm(h))]
         (* SE(3)/SE_2(3), general rho: symbolic-mu expectation *)
-        \/ \E rep \in Reps2, rho \in Rhos : RepOK(rep, h) /\
+        \/ \E rep \in Reps2, rho \in Rhos : RepOK(rep, h) /\ cell # "nearpole" /\
               tv' = [op |-> "exp_se3_gen", rep |-> rep, h |-> h, rho |-> rho, cell |-> cell, p |-> GenP(h, rho),
                      exp |-> RM(QMat(h), QNorm(h))]
-        \/ \E rep \in Reps2, r1 \in Rhos, r2 \in {<<0,-2,1>>, <<1,1,1>>} : RepOK(rep, h) /\
+        \/ \E rep \in Reps2, r1 \in Rhos, r2 \in {<<0,-2,1>>, <<1,1,1>>} : RepOK(rep, h) /\ cell # "nearpole" /\
               tv' = [op |-> "exp_se23_gen", rep |-> rep, h |-> h, rho |-> r1, rho2 |-> r2, cell |-> cell,
                      p |-> GenP(h, r1), p2 |-> GenP(h, r2), exp |-> RM(QMat(h), QNorm(h))]
         (* screw form, scalar multiples s: rational expectation, any angle *)
@@ -136,14 +143,17 @@ NextE == UNCHANGED dummy /\
         \/ /\ h[1] # 0 \/ nOf(h) = 0
            /\ \E rep \in Reps3 : RepOK(rep, h) /\
               tv' = [op |-> "log_so3", rep |-> rep, h |-> h, hp |-> Principal(h), cell |-> cell]
+        (* Euler inputs at a gimbal pole / inside the band: log exact, exp(log X) = X to band tolerance *)
+        \/ /\ h = <<1,0,0,0>>
+           /\ \E hb \in HBand : tv' = [op |-> "log_so3", rep |-> "euler", h |-> hb, hp |-> Principal(hb), cell |-> "band"]
         (* the quaternion -1 (identity rotation, no MRP): log must be 0 *)
         \/ /\ h = <<1,0,0,0>>
            /\ tv' = [op |-> "log_so3", rep |-> "quat", h |-> <<-1,0,0,0>>, hp |-> <<1,0,0,0>>, cell |-> "zero"]
-        \/ /\ h[1] # 0 \/ nOf(h) = 0
+        \/ /\ (h[1] # 0 \/ nOf(h) = 0) /\ cell # "nearpole"
            /\ \E rep \in Reps2, p \in Rhos : RepOK(rep, h) /\
               tv' = [op |-> "log_se3", rep |-> rep, h |-> h, hp |-> Principal(h), p |-> p, cell |-> cell,
                      u |-> GenU(Principal(h), p)]
-        \/ /\ h[1] # 0 \/ nOf(h) = 0
+        \/ /\ (h[1] # 0 \/ nOf(h) = 0) /\ cell # "nearpole"
            /\ \E rep \in Reps2, p \in Rhos, p2 \in {<<1,1,1>>} : RepOK(rep, h) /\
               tv' = [op |-> "log_se23", rep |-> rep, h |-> h, hp |-> Principal(h), p |-> p, p2 |-> p2, cell |-> cell,
                      u |-> GenU(Principal(h), p), u2 |-> GenU(Principal(h), p2)]
